@@ -145,6 +145,7 @@ def feed(job):
     exc = []
     pos = 0
     pre = []
+    preraw = []
     # the reads arrive with pauses between them (a busy event loop, a stalling USB adapter): the clocks a receiver could
     # look at jump by anything between nothing and a minute from one read to the next
     import time as _t
@@ -159,6 +160,16 @@ def feed(job):
             except Exception as e:  # noqa: recorded
                 exc.append([ci, type(e).__name__])
             pos += size
+            # a send() starting between two reads (LUBA): the driver takes what has been answered so far and flushes the
+            # answer queue -- which is all it may touch; the frame that is half way in stays
+            if proto == "luba" and len(data) % 3 == 0 and ci < len(chunks):
+                while not p._queue_rx_raw_dali.empty():
+                    x = p._queue_rx_raw_dali.get_nowait()
+                    preraw.append(x if isinstance(x, int) else -1)
+                try:
+                    p.reset_dali_response()
+                except Exception as e:  # noqa: recorded
+                    exc.append([ci, "reset:" + type(e).__name__])
             # the subscriber takes what has been delivered so far -- and it owns it: in every second stream it scribbles
             # on the command objects' frames, which must not reach anything delivered later
             while not child.empty():
@@ -174,12 +185,12 @@ def feed(job):
                         pass
     finally:
         _t.monotonic, _t.time, _t.perf_counter = saved
-    return _collect(proto, data, chunks, p, child, exc, pre)
+    return _collect(proto, data, chunks, p, child, exc, pre, preraw)
 
 
-def _collect(proto, data, chunks, p, child, exc, pre=()):
+def _collect(proto, data, chunks, p, child, exc, pre=(), preraw=()):
     from dali.driver import serial as ds
-    got = {"raw": [], "conf": [], "info": [], "cmd": [list(x) for x in pre]}
+    got = {"raw": list(preraw), "conf": [], "info": [], "cmd": [list(x) for x in pre]}
 
     def drain(q):
         items = []
